@@ -81,7 +81,8 @@ def plan(tier, seed):
                  'refused_formulas_in_between',
                  'managers_with_dynamic_reordering',
                  'formulas_with_reordering_due',
-                 'order_changes_between_formulas'],
+                 'order_changes_between_formulas',
+                 'variables_declared_or_removed_between_formulas'],
         assumptions=[
             'vf/formula.py reads the grammar as documented in doc.md '
             '(precedence list, left associativity, binders extend right)',
@@ -106,6 +107,7 @@ class Mgr:
         self.raw = self.bdd._bdd if auto else self.bdd
         self.order = tuple(order)
         self.kept = []
+        self.extra = None
         self.nodes = []
         for _ in range(4):
             t = rng.getrandbits(self.sp.size)
@@ -306,7 +308,7 @@ def _random(ctx, spec, rng, names, order, _b):
             # the order is changed between formulas (to a given order,
             # to adjacent pairs, or by one swap), with whatever earlier
             # formulas left in the manager's caches
-            tgt = names[:]
+            tgt = list(m.raw.vars)
             rng.shuffle(tgt)
             how = rng.randrange(3)
             if how == 0:
@@ -318,10 +320,29 @@ def _random(ctx, spec, rng, names, order, _b):
             elif how == 1:
                 _b.reorder_to_pairs(m.raw, {tgt[0]: tgt[1]})
             else:
-                i = rng.randrange(len(names) - 1)
+                i = rng.randrange(len(m.raw.vars) - 1)
                 m.raw.swap(i, i + 1)
             m.order = tuple(sorted(m.raw.vars, key=m.raw.vars.get))
             ctx.counters['order_changes_between_formulas'] += 1
+        if not m.auto and rng.random() < 0.05:
+            # a variable that no formula mentions is declared and moved
+            # to some level, or the one declared earlier is removed again
+            # (nodes of the other variables exist above and below it)
+            if m.extra is None:
+                m.extra = f'unused{k}'
+                m.raw.add_var(m.extra)
+                tgt = list(m.raw.vars)
+                rng.shuffle(tgt)
+                _b.reorder(m.raw, {v: i for i, v in enumerate(tgt)})
+            else:
+                got = m.raw.undeclare_vars(m.extra)
+                if set(got) != {m.extra}:
+                    ctx.violation('undeclare_vars', 'removed-set-differs',
+                                  dict(got=sorted(got), asked=m.extra))
+                m.extra = None
+            m.order = tuple(sorted(m.raw.vars, key=m.raw.vars.get))
+            ctx.counters['variables_declared_or_removed_between_formulas'] \
+                += 1
         s = formula.gen(rng, names, depth, m.nodes)
         if m.auto and k % 5 == 0 and m.bdd.configure()['reordering']:
             # a reordering is due within the next two new nodes
